@@ -149,7 +149,19 @@ func BuildCase(res *Result) (term string, steps int, problem string) {
 	// group by goroutine, keeping order
 	var order []int64
 	by := map[int64][]Ev{}
+	// everything after shutdown saw inFlight = 0 is tear-down of an empty pipeline (closing of the worker inputs,
+	// empty sets failing on the closed connection) and races with the end of the run: not part of the logs
+	wake := -1
 	for _, e := range res.Events {
+		if e.Kind == "shutdown.wake" {
+			wake = e.Seq
+			break
+		}
+	}
+	for _, e := range res.Events {
+		if wake >= 0 && e.Seq > wake {
+			continue
+		}
 		if _, seen := by[e.Goid]; !seen {
 			order = append(order, e.Goid)
 		}
